@@ -3,6 +3,7 @@ import itertools
 
 import construles as C
 import exp
+import inline as INL
 import mathlib as M
 from facts import callee, op_place
 from mirutil import Resolver, const_payload, project_value
@@ -41,6 +42,87 @@ def real_calls(body):
     return [(bi, t) for bi, t in body.calls()]
 
 
+class LinV:
+    """Element of the free Z-module over named atoms ('1' = the unit of the component field)."""
+    __slots__ = ('t',)
+
+    def __init__(self, t):
+        self.t = {k: v for k, v in t.items() if v}
+
+    def comb(self, o, a, b):
+        d = {k: a * v for k, v in self.t.items()}
+        for k, v in o.t.items():
+            d[k] = d.get(k, 0) + b * v
+        return LinV(d)
+
+    def __eq__(self, o):
+        return isinstance(o, LinV) and self.t == o.t
+
+    def __hash__(self):
+        return hash(frozenset(self.t.items()))
+
+    def __repr__(self):
+        return ' + '.join('%s%s' % ('' if v == 1 else '%d*' % v, k) for k, v in sorted(self.t.items())) or '0'
+
+
+def tower_value(fx, ty, prefix, idx=''):
+    """The element of `ty` with one atom per Fq coefficient (atoms prefix+index path)."""
+    comp = dict(TOWER).get(ty)
+    if comp is None:
+        return LinV({prefix + idx: 1})
+    return exp.Agg([tower_value(fx, comp, prefix, idx + str(i)) for i in range(ncomp(fx, ty))])
+
+
+def tower_const(fx, ty, one):
+    comp = dict(TOWER).get(ty)
+    if comp is None:
+        return LinV({'1': 1} if one else {})
+    return exp.Agg([tower_const(fx, comp, one and i == 0) for i in range(ncomp(fx, ty))])
+
+
+def tower_leaves(v, idx=''):
+    if isinstance(v, exp.Agg):
+        out = []
+        for i, x in enumerate(v.items):
+            out += tower_leaves(x, idx + str(i))
+        return out
+    return [(idx, v)]
+
+
+def _lin_map(v, w, a, b):
+    if isinstance(v, LinV) and (w is None or isinstance(w, LinV)):
+        return v.comb(w if w is not None else LinV({}), a, b)
+    if isinstance(v, exp.Agg) and (w is None or (isinstance(w, exp.Agg) and len(w.items) == len(v.items))):
+        items = [_lin_map(x, None if w is None else w.items[i], a, b) for i, x in enumerate(v.items)]
+        return None if any(x is None for x in items) else exp.Agg(items, v.kind)
+    if isinstance(v, LinV) and isinstance(w, exp.Agg) or isinstance(v, exp.Agg) and isinstance(w, LinV):
+        return None
+    return None
+
+
+def linear_transfer(I, fr, t, c, pth):
+    """ff::Field's linear operations on vectors of the free module (any level of the tower)."""
+    if c.get('trait') != FIELD:
+        return False
+    nm = c.get('name')
+    args = t['args']
+    if nm in ('add_assign', 'sub_assign') and len(args) == 2:
+        a, b = fr.deref_operand(args[0]), fr.deref_operand(args[1])
+        r = _lin_map(a, b, 1, 1 if nm == 'add_assign' else -1)
+    elif nm in ('double', 'negate') and len(args) == 1:
+        a = fr.deref_operand(args[0])
+        r = _lin_map(a, None, 2 if nm == 'double' else -1, 0)
+    elif nm in ('zero', 'one') and not args:
+        fr.storev(t['dest'], tower_const(I.facts, c.get('self_ty'), nm == 'one'))
+        return True
+    else:
+        return False
+    if r is None:
+        return False
+    fr.store_through(args[0], r)
+    return True
+
+
 def rule_componentwise(fx, rep):
     n_inst = 0
     for ty, comp in TOWER:
@@ -55,35 +137,36 @@ def rule_componentwise(fx, rep):
                 continue
             rep.fn(path)
             n_inst += 1
-            r = Resolver(b)
-            seen = {}
+            # interpretation in the free Z-module over the components: the component operations are linear maps, so
+            # "a + a", "double", "0 - a", "negate" ... all normalise to the same vector whatever calls compute them
             bad = []
-            for bi, t in real_calls(b):
-                rep.sites()
-                c = callee(t)
-                if not (c and c.get('trait') == FIELD and c.get('name') == op and c.get('self_ty', comp) == comp):
-                    bad.append('unexpected call %s at %s' % ((c or {}).get('res') or (c or {}).get('def'), t['span']))
+            I = exp.Interp(fx, 'none', extra_transfer=linear_transfer, inline=lambda q: INL.is_private_helper(fx, q))
+            I.fork_inlined = True
+            selfv, otherv = tower_value(fx, ty, 'c'), tower_value(fx, ty, 'd')
+            try:
+                res = I.run(path, [('byref', selfv)] + ([('byref', otherv)] if arity == 2 else []))
+            except (exp.NotDerivable, exp.Budget) as e:
+                res = []
+                bad.append('not derivable: %s' % e)
+            rep.sites(I.call_sites)
+            res = [r_ for r_ in res if not (isinstance(r_[1], tuple) and r_[1] and r_[1][0] == 'diverges')]
+            if not bad and len(res) != 1:
+                bad.append('%d paths: the operation branches on data' % len(res))
+            for pth, ret, outs in res[:1]:
+                o = outs.get(1)
+                got = dict(tower_leaves(o)) if isinstance(o, exp.Agg) else None
+                if got is None or set(got) != set(i_ for i_, _ in tower_leaves(selfv)) or not all(isinstance(x, LinV) for x in got.values()):
+                    bad.append('self becomes %r' % (o,))
                     continue
-                i0 = comp_of(r.operand_referent(t['args'][0]), 1)
-                if i0 is None:
-                    bad.append('receiver of %s at %s is not a component of self' % (op, t['span']))
-                    continue
-                if arity == 2:
-                    i1 = comp_of(r.operand_referent(t['args'][1]), 2)
-                    if i1 != i0:
-                        bad.append('self.c%s is combined with other.c%s at %s (cross-wired components)' % (i0, i1, t['span']))
-                        continue
-                seen[i0] = seen.get(i0, 0) + 1
-            for i in range(n):
-                if seen.get(i, 0) != 1:
-                    bad.append('component c%d is processed %d times' % (i, seen.get(i, 0)))
-            # no other writes into self
-            d = r.d
-            stores = [w for w in d.partial[1] if w[0] == 'assign']
-            if stores:
-                bad.append('direct stores into self: %s' % [w[3]['span'] for w in stores])
-            rep.check(not bad, 'SHAPE', inst, 'component-wise: %d calls of %s::%s on matching components' % (n, short(comp), op),
-                      '; '.join(bad), fx.fn(path)['span'], construct=path)
+                for i, x in sorted(got.items()):
+                    want = {'add_assign': {'c%s' % i: 1, 'd%s' % i: 1}, 'sub_assign': {'c%s' % i: 1, 'd%s' % i: -1},
+                            'double': {'c%s' % i: 2}, 'negate': {'c%s' % i: -1}}[op]
+                    if x.t != want:
+                        bad.append('coefficient c%s becomes %s, expected %s' % (i, x, LinV(want)))
+                if arity == 2 and outs.get(2) is not None and outs.get(2) != otherv and isinstance(outs.get(2), exp.Agg):
+                    bad.append('the other operand is modified')
+            rep.check(not bad, 'SHAPE', inst, 'component-wise: component i of the result is the %s of the i-th components (decided in the free module over the components)' % op,
+                      '; '.join(bad[:3]), fx.fn(path)['span'], construct=path)
         # is_zero: conjunction over all components
         path = fx.impl_method(FIELD, ty, 'is_zero')
         b = fx.body(path) if path else None
@@ -105,16 +188,17 @@ def rule_componentwise(fx, rep):
                 continue
             rep.fn(path)
             n_inst += 1
-            o = Origin(b)
-            t = o.local(0)
-            good = t[0] == 'agg' and 'adt' in t[1] and t[1]['adt'] == ty and len(t[2]) == n
-            why = 'does not build %s from %d component constants' % (s, n)
-            if good:
-                for i, a in enumerate(t[2]):
-                    want = 'one' if (op == 'one' and i == 0) else 'zero'
-                    if not (a[0] == 'call' and a[1] and a[1].get('trait') == FIELD and a[1].get('name') == want and not a[2]):
-                        good = False
-                        why = 'component c%d of %s() is %s, expected %s::%s()' % (i, op, term_str(a), short(comp), want)
+            I = exp.Interp(fx, 'none', extra_transfer=linear_transfer, inline=lambda q: INL.is_private_helper(fx, q))
+            good, why = True, ''
+            try:
+                res = I.run(path, [])
+                rep.sites(I.call_sites)
+                ret = res[0][1] if len(res) == 1 else None
+                want = tower_const(fx, ty, op == 'one')
+                if not (isinstance(ret, exp.Agg) and tower_leaves(ret) == tower_leaves(want)):
+                    good, why = False, '%s() returns %r, expected %r' % (op, ret, want)
+            except (exp.NotDerivable, exp.Budget) as e:
+                good, why = False, 'not derivable: %s' % e
             rep.check(good, 'SHAPE', inst, '%s() = (%s, 0, ..)' % (op, '1' if op == 'one' else '0'), why, fx.fn(path)['span'], construct=path)
     rep.floor('SHAPE', 'component-wise-ops', n_inst, 21)
 
